@@ -333,7 +333,9 @@ func (m *Mux) fetch(pattern string, mount *node) (*node, []pathParam) {
 		}
 
 		if t[0] == pmark || t[0] == pwild {
-			if lt == 1 {
+			// A placeholder must have a name, while an anonymous
+			// placeholder is a single asterisk.
+			if (t[0] == pmark) == (lt == 1) {
 				panic(invalidPattern)
 			}
 			if t[0] == pmark {
